@@ -2,7 +2,9 @@
 (a) end-to-end: every query of the qgen corpus x every database x {memory, disk with several row-sets} x statistics
     assignments is executed with `PRAGMA disable_optimizer` and with `PRAGMA enable_optimizer`; results must agree
     (multiset; key sequence under ORDER BY). Queries whose unoptimised plan cannot run are 'not comparable'.
-(b) per rewrite rule: see rulecheck (E5) — merged into this check's verdict when built."""
+(b) per rewrite rule (E5, `rlv rules`): every rule of expr/and/always_better/predicate_pushdown/join_reorder/hash_join/order is
+    applied alone to every well-typed, runnable instantiation of its left-hand side over typed atom menus; every member of
+    the resulting root e-class is executed and must return the same rows as the left-hand side."""
 import json
 from lib import core, runner, sqlutil as U, qgen
 
@@ -88,7 +90,39 @@ def run(tier, seed):
             else:
                 chk.ok(cid, nontrivial=len(a["rows"]) > 0, outcome=f"rows={min(len(a['rows']), 5)}",
                        sample={"case": c, "rows": a["rows"][:3]})
+    # ---- (b) per rewrite rule (E5)
+    rule_summary = {}
+    fails = []
+
+    def on_line(d):
+        if "fail" in d:
+            fails.append(d)
+        elif "summary" in d:
+            rule_summary.update(d["summary"])
+        elif "machinery" in d:
+            chk.machinery("rules: " + json.dumps(d)[:300])
+    _lines, rcs = runner.run_shards("rules", [], nshards=16, on_line=on_line)
+    for i, (rc, err) in enumerate(rcs):
+        if rc != 0:
+            chk.machinery(f"rules shard {i} exited {rc}: {err[-200:]}")
+    members = 0
+    for name, sm in rule_summary.items():
+        if "skipped" in sm:
+            chk.skip("rule not instantiable: " + name)
+            continue
+        members += sm["members_executed"]
+    for d in fails:
+        c = {"rule": d["fail"], "lhs": d["lhs"], "rhs": d["rhs"]}
+        chk.fail(core.case_id(c), "rule-unsound:" + d["fail"], c, d.get("detail", ""), outcome="rule-unsound")
+    # every executed e-class member that agreed is one passing evaluation
+    agree = members - len(fails)
+    chk.evaluations += agree
+    chk.outcomes["rule-member-agrees"] = agree
+    chk.extra.update(rules_checked=len([1 for v in rule_summary.values() if "skipped" not in v]), rules_skipped=sorted(k for k, v in rule_summary.items() if "skipped" in v),
+                     rule_instantiations=sum(v.get("instantiations", 0) for v in rule_summary.values()), rule_members_executed=members,
+                     rules_never_fired=sorted(k for k, v in rule_summary.items() if "skipped" not in v and v["rule_fired"] == 0))
     chk.assumptions += ["the unoptimised plan (PRAGMA disable_optimizer) is the reference semantics of the query",
+                        "per-rule part: pattern variables are instantiated from typed atom menus chosen by variable name; instantiations the type checker rejects or the executor cannot run are not comparable; e-class member enumeration is capped at 40 terms / depth 8 per instantiation; projection-pushdown, subquery and index-scan rules are exercised end-to-end only",
                         "statistics: real (disk) / none (memory) or mocked row counts via SET mock_rowcount_<t>"]
     chk.extra.update(queries=len(qgen.queries(tier)), databases=len(qgen.databases(tier)))
     return chk
